@@ -1,5 +1,6 @@
 import EaModel.Properties.C01
 import EaModel.Lemmas.Create
+import EaModel.Lemmas.History
 /-!
 # C08 — one-shot and countdown jobs fire exactly when promised
 -/
@@ -101,6 +102,54 @@ theorem countdown_runs_at_reset_plus_countdown (env : Env) (now : Int) (en : Boo
   have := hx (by rw [c.enabled]; exact hen) h2 h3 (by rw [c.now]; omega)
   rw [if_pos (by rw [c.now]; omega)] at this
   exact this
+
+/-- A job that is queued for the instant `t` stays queued for `t` until it is executed for `t` (never before `t`),
+through any history of operations that do not address it: creations of and operations on other jobs, clock
+advances, wake-ups, sleeps, switching the scheduler off and on, failures of other jobs. -/
+theorem queued_until_executed (env : Env) (now : Int) (en : Bool) (ops more : List Op) (i : Nat) (t : Int) :
+    let s := runOps (initSt env now en) ops
+    i ∈ s.queue → s.nr i = some t → (∀ op ∈ more, op.target ≠ some i ∧ op.adds ≠ some i) →
+    let s' := runOps s more
+    (∃ l t', s'.log = l ++ s.log ∧ Ev.exec i t' t ∈ l ∧ t ≤ t') ∨ (i ∈ s'.queue ∧ s'.nr i = some t) := by
+  intro s hm ht hop s'
+  have hI : Inv s := inv_reachable env now en ops
+  have key : ∀ (more : List Op) (s : St), Inv s → (∀ op ∈ more, op.target ≠ some i ∧ op.adds ≠ some i) →
+      KeepH i s (runOps s more) ∧ LogExt s (runOps s more) ∧ Inv (runOps s more) := by
+    intro more
+    induction more with
+    | nil => intro s hI _; exact ⟨KeepH.refl i s, LogExt.refl s, hI⟩
+    | cons op more ih =>
+      intro s hI hop
+      have k1 := step_keepH s op i hI (hop op (by simp)).1 (hop op (by simp)).2
+      have e1 := step_ext s op hI
+      obtain ⟨k2, e2, i2⟩ := ih (step s op).1 (step_inv s op hI) (fun o ho => hop o (by simp [ho]))
+      exact ⟨k1.trans k2 e1 e2, e1.trans e2, i2⟩
+  obtain ⟨k, _, hI'⟩ := key more s hI hop
+  rcases k t hm ht with ⟨l, t', hl, hin⟩ | hr
+  · left
+    have : evOK (Ev.exec i t' t) := hI'.log _ (by rw [hl]; exact List.mem_append_left _ hin)
+    exact ⟨l, t', hl, hin, this⟩
+  · exact Or.inr hr
+
+/-- A countdown job that was reset fires for (instant of the reset + countdown value in force) provided no
+reset, stop, cancel or other operation on it happens before: whatever else happens, it stays queued for that
+instant until it is executed for it, and never earlier. -/
+theorem countdown_fires_unless_touched (env : Env) (now : Int) (en : Bool) (ops more : List Op) (j : Nat) :
+    let s := runOps (initSt env now en) ops
+    isCountdown (s.job j) = true → (s.job j).linked = true → 0 < (s.job j).secs →
+    (∀ op ∈ more, op.target ≠ some j ∧ op.adds ≠ some j) →
+    let s1 := (step s (.reset j)).1
+    let s2 := runOps s1 more
+    (∃ l t', s2.log = l ++ s1.log ∧ Ev.exec j t' (s.now + (s.job j).secs) ∈ l ∧ s.now + (s.job j).secs ≤ t') ∨
+    (j ∈ s2.queue ∧ s2.nr j = some (s.now + (s.job j).secs)) := by
+  intro s hc hl hpos hop s1 s2
+  have hI : Inv s := inv_reachable env now en ops
+  obtain ⟨_, h2, h3⟩ := reset_queued s j hI hc hl hpos
+  have hs1 : runOps (initSt env now en) (ops ++ [.reset j]) = s1 := by
+    unfold runOps; rw [List.foldl_append]; rfl
+  have := queued_until_executed env now en (ops ++ [.reset j]) more j (s.now + (s.job j).secs)
+  simp only [hs1] at this
+  exact this h2 h3 hop
 
 -- non-vacuity (executable checks): reset at 2 with 5 s fires at 7; a second reset at 4 moves it to 9
 #guard ((runOps (initSt {} 0) [.create 1 none (.countdown 5) [] [], .advance 2, .reset 1, .sleep 10]).log.filterMap
